@@ -18,6 +18,7 @@ import TlxVerif.Proofs.C19Contains
 import TlxVerif.Proofs.C19Replace
 import TlxVerif.Proofs.C19Lev
 import TlxVerif.Proofs.C19Erase
+import TlxVerif.Proofs.C19Lines
 namespace TlxVerif.C19
 open TlxVerif.C18 (Bytes npos)
 open TlxVerif.C18
@@ -66,6 +67,18 @@ theorem base64_plain_is_rfc (s : Bytes) : base64Encode s 0 = Spec.base64 s := by
   · exact encodeLoop_zero s 0
 
 example : Spec.base64 [102, 111, 111] = [90, 109, 57, 118] := by decide
+
+/-- line structure for the documented widths (positive multiples of 4): every line that is
+terminated by a newline has exactly `line_break` characters, the remaining text at most that many
+(`GoodLines lb 0` over the line lengths, Proofs/C19Lines.lean) -/
+theorem base64_line_structure (s : Bytes) (lb : Nat) (hlb : 0 < lb) (h4 : lb % 4 = 0) :
+    GoodLines lb 0 (lineLengths (base64Encode s lb)) := by
+  unfold base64Encode
+  split
+  · simp [lineLengths, GoodLines]
+  · exact encodeLoop_lines lb hlb h4 s 0 (by omega) hlb
+
+example : lineLengths (base64Encode [102, 111, 111, 98, 97, 114, 33] 4) = [4, 4, 4] := by decide
 
 /-! ## hexdump -/
 
